@@ -305,6 +305,53 @@ def check(ctx):
                f"embedded trajectory member {ext}: writer/reader pairing "
                f"deviates", key=f"C06.3:traj:{ext}")
 
+    # a member's payload is the *whole* buffer: rewound to 0 after it was
+    # filled and before it is read
+    for e in ws:
+        payload = e.data["args"][1]
+        reads = [x for x in payload.walk() if is_call_to(x, ".read") and
+                 is_call_to(tm.method_recv(x), "io.BytesIO", "io.StringIO")]
+        for rd_ in reads:
+            buf = tm.method_recv(rd_)
+            rd_ev = [x for x in rs.of_kind("call")
+                     if x.data.get("result") is rd_]
+            fills = [x for x in rs.of_kind("call") if x.idx < e.idx and
+                     x.data["args"] and x.data["args"][0] is buf]
+            seeks = [x for x in rs.of_kind("call")
+                     if x.data.get("name") == ".seek" and
+                     x.data.get("recv") is buf and fills and
+                     max(f_.idx for f_ in fills) < x.idx <
+                     (rd_ev[0].idx if rd_ev else e.idx)]
+            ok = bool(fills) and len(seeks) >= 1 and \
+                tm.is_const(seeks[-1].data["args"][0], 0) and \
+                not rd_.args[1]
+            ctx.ob("C06.3", e, ok,
+                   "result: the member is the whole buffer (seek(0) between "
+                   "filling and reading it, unbounded read)" if ok else
+                   f"result: the buffer written as "
+                   f"{fmt(e.data['args'][0])[:50]} is not read from its "
+                   f"start / not completely (seek "
+                   f"{[fmt(x.data['args'][0]) for x in seeks] or 'missing'}"
+                   f"): the stored member loses data",
+                   key="C06.3:save:rewind")
+    # loaded trajectories are stored under their member's stem
+    at = rl.calls("evo.core.result.Result.add_trajectory")
+    for e in at:
+        b = e.data["bound"] or {}
+        nm, tr = b.get("name"), b.get("traj")
+        ok = nm is not None and nm.op == "attr" and nm.args[1] == "stem" \
+            and tr is not None and is_call_to(
+                tr, FI + "read_tum_trajectory_file",
+                FI + "read_kitti_poses_file")
+        ctx.ob("C06.3", e, bool(ok),
+               "result: an embedded trajectory is re-read with its format's "
+               "reader and stored under the member's stem" if ok else
+               f"load_res_file: add_trajectory(name={fmt(nm)[:50]}, "
+               f"traj={fmt(tr)[:50]})", key="C06.3:load:trajectory-name")
+    ctx.ob("C06.3", rl.func, len(at) == 2,
+           "result: .tum and .kitti members are both loaded back",
+           key="C06.3:load:trajectory-kinds", nontrivial=False)
+
     # every embedded trajectory / array gets its own fresh buffer: a buffer
     # created outside the loop keeps the tail of a longer earlier member
     for ctor, what in (("io.StringIO", "trajectory"), ("io.BytesIO",
